@@ -113,7 +113,7 @@ def main():
         'hooks': {
             'guard': 'AUREL_VERIF (unused: no hook was added to /repo; all seams are harness-side rebinding/subclassing)',
             'enable': 'nothing to enable; checks import aurel from /repo/src (editable install) as it is',
-            'baseline_off_cmd': '/verif/tools/baseline.py',
+            'baseline_off_cmd': 'cd /repo && /venv/bin/python -m pytest -ra -q -p no:cacheprovider --timeout=900 --continue-on-collection-errors',
             'source_commits': [],
             'add_only': True,
         },
@@ -122,7 +122,7 @@ def main():
                     for e, ps in sorted(engines.items())],
         'checks': checks,
         'not_applicable': na,
-        'notes': "All checks: ./vcheck <ID> --tier quick|thorough; VERIF_SEED honoured; exit 0 held / 1 VIOLATION / 2 harness error. Genuine defects repaired in /repo as 'fix:' commits are recorded in /verif/known_findings.json (status fixed, suppress nothing).",
+        'notes': "No hook exists, so the guard-off baseline is the plain pinned suite (tools/baseline.py runs it and compares with BASELINE.json stable_pass). All checks: ./vcheck <ID> --tier quick|thorough; VERIF_SEED honoured; exit 0 held / 1 VIOLATION / 2 harness error. Genuine defects repaired in /repo as 'fix:' commits are recorded in /verif/known_findings.json (status fixed, suppress nothing).",
     }
     with open(os.path.join(VERIF, 'MANIFEST.json'), 'w') as f:
         json.dump(man, f, indent=1)
